@@ -721,6 +721,37 @@ def names_table() -> Dict[str, List[str]]:
     return _NAMES_TABLE
 
 
+_SHAPES: Optional[Dict[str, str]] = None
+
+
+def shapes_table() -> Dict[str, str]:
+    global _SHAPES
+    if _SHAPES is None:
+        p = os.path.join(os.path.dirname(os.path.abspath(__file__)), "shapes.json")
+        _SHAPES = {}
+        if os.path.exists(p) and not os.environ.get("QV_NO_NAME_NORMALISATION"):
+            with open(p) as fh:
+                _SHAPES = json.load(fh)
+    return _SHAPES
+
+
+def alpha_shape(fn) -> str:
+    """digest of the function with its locals replaced by their rank of first binding: equal for two functions
+    that differ by a consistent renaming of locals only (docstrings and positions ignored)"""
+    import copy as _copy
+    import hashlib
+
+    f2 = _copy.deepcopy(fn)
+    names = local_names_in_order(f2)
+    mp = {n: f"v{k}" for k, n in enumerate(names)}
+    for n in ast.walk(f2):
+        if isinstance(n, ast.Name) and n.id in mp:
+            n.id = mp[n.id]
+        if isinstance(n, (ast.FunctionDef, ast.AsyncFunctionDef, ast.ClassDef)) and n.body and isinstance(n.body[0], ast.Expr) and isinstance(n.body[0].value, ast.Constant) and isinstance(n.body[0].value.value, str):
+            n.body = n.body[1:] or [ast.Pass()]
+    return hashlib.md5(ast.dump(f2, annotate_fields=False, include_attributes=False).encode()).hexdigest()
+
+
 def undo_local_renames(qualname: str, fn) -> Dict[str, str]:
     """If the locals of `fn` differ from the frozen list only by a consistent renaming (same number of new and of
     missing names, in the same first-binding order), rename them back in place.  Returns the mapping applied."""
@@ -733,6 +764,11 @@ def undo_local_renames(qualname: str, fn) -> Dict[str, str]:
     if not new or len(new) != len(missing):
         return {}
     mp = dict(zip(new, missing))
+    want = shapes_table().get(qualname)
+    if want is not None and alpha_shape(fn) != want:
+        # not a pure renaming: the function was changed in other ways too, and guessing which new local plays the
+        # part of which old one would make the rules read the wrong variables
+        return {}
     for n in ast.walk(fn):
         if isinstance(n, ast.Name) and n.id in mp:
             n.id = mp[n.id]
